@@ -293,27 +293,48 @@ Proof.
   injection Hm as <-. eapply specpath_mreach. eapply upath_specpath; eauto.
 Qed.
 
-Lemma raw_create_named_inv04 h name item m v pos_opt w r w' :
+(* what create_named_sub_element does to the world: nothing, a fresh leaf (when creating the SHORT-NAME fails), or a
+   fresh named element with its SHORT-NAME and one new index entry *)
+Definition named_shape (w : world) (h name : N) (item : list N) (m : N) (w' : world) : Prop :=
+  leaf_shape T check_fn w h name w' \/
+  exists n et se k pp x,
+    w_nodes w h = Some n /\
+    (forall j, w_nodes w' j = named_nodes w h n name et se item k j) /\
+    w_models w' = list_set (w_models w) (N.to_nat m) (set_idents x (assoc_insert (pp ++ 47 :: item) (w_next w) (m_idents x))) /\
+    model_at w m = Some x /\ assoc_get (pp ++ 47 :: item) (m_idents x) = None /\
+    SpecPath T w m h pp /\
+    named T et = true /\ short_type T check_fn se /\ ~ In 47 item /\
+    name <> SHORTN /\ content_mode T et <> Val MCharacters /\
+    (k <= List.length (n_content n))%nat /\ n_name n <> SHORTN /\ content_mode T (n_type n) <> Val MCharacters /\
+    isref T (n_type n) = false /\
+    (k = O -> identifiable_n T w n = false).
+
+Lemma raw_create_named_shape h name item m v pos_opt w r w' :
   TreeFacts w -> Inv04 w -> model_of h w = Val (OK m, w) -> min_version LATEST h w = Val (OK v, w) ->
   front T LATEST w h name pos_opt = false ->
   match pos_opt with
   | None => raw_create_named_sub_element T check_fn h name item m v w = Val (r, w')
   | Some pos => raw_create_named_sub_element_at T check_fn h name item pos m v w = Val (r, w')
-  end -> Inv04 w'.
+  end -> named_shape w h name item m w'.
 Proof.
   intros HF HI Hm Hv Hfr H.
   assert (Hcore : forall n s e pos, w_nodes w h = Some n -> calc_element_insert_range T n name v w = Val (OK (s, e), w) ->
             (N.to_nat pos = O -> identifiable_n T w n = false /\ (named T (n_type n) = true -> name <> name_short_name T)) ->
-            create_named_sub_element_inner T check_fn h name item pos m v w = Val (r, w') -> Inv04 w').
+            create_named_sub_element_inner T check_fn h name item pos m v w = Val (r, w') -> named_shape w h name item m w').
   { intros n s e pos Hn Hr Hfront Hc. apply create_named_inner_val in Hc; [|exact HF].
     assert (Hns : n_name n <> SHORTN) by (eapply range_not_short; eauto; apply (i4_short _ _ _ HI)).
     assert (Hmd : content_mode T (n_type n) <> Val MCharacters) by (eapply calc_range_mode; eauto).
+    assert (Hnr : isref T (n_type n) = false) by (eapply range_not_ref; eauto).
     destruct Hc as [(-> & _)|[(n2 & et & ix & Hn2 & Hfind & Hlen & _ & ->)|
-      (n2 & et & ix & se & six & pp & x & Hn2 & Hfind & Hnv & Hmet & Hfs & (cs & Hcs & Hck) & Hpu & Hx & Hfree & Hlen & _ & Hnodes & _ & _ & Hmodels)]];
-      [exact HI| |].
-    - rewrite Hn in Hn2. injection Hn2 as <-. apply inv04_attach_leaf; auto.
-      cbn [new_node n_name]. intros Hs. subst name. eapply (tk_short _ _ TK); eauto.
-    - rewrite Hn in Hn2. injection Hn2 as <-.
+      (n2 & et & ix & se & six & pp & x & Hn2 & Hfind & Hnv & Hmet & Hfs & (cs & Hcs & Hck) & Hpu & Hx & Hfree & Hlen & _ & Hnodes & _ & _ & Hmodels)]].
+    - left. left. reflexivity.
+    - rewrite Hn in Hn2. injection Hn2 as <-. left. right.
+      exists n, (new_node (PElem h) name et), (N.to_nat pos).
+      split; [exact Hn|]. split; [reflexivity|]. split; [reflexivity|]. split; [exact Hlen|].
+      split; [exact Hns|]. split; [exact Hmd|]. split; [exact Hnr|].
+      split; [exact Hfront|]. split; [|reflexivity].
+      cbn [new_node n_name n_type]. intros Hs. subst name. eapply (tk_short _ _ TK); eauto.
+    - rewrite Hn in Hn2. injection Hn2 as <-. right.
       pose proof (tk_short _ _ TK _ _ _ _ Hfs) as Hse.
       assert (Hitem : ~ In 47 item).
       { destruct Hse as (_ & _ & Hval). destruct (Hval _ _ _ Hcs Hck) as (s0 & [= <-] & Hs0). exact Hs0. }
@@ -322,16 +343,61 @@ Proof.
       assert (Hpp : SpecPath T w m h pp).
       { destruct (path_unchecked_spec T w m h n HF Hn (model_of_mreach _ _ _ HF Hm)) as (_ & Hsp).
         destruct (Hsp _ _ Hpu) as (_ & p & [= <-] & Hp). exact Hp. }
-      eapply inv04_attach_named; eauto.
-      + eapply is_named_of_version; eauto.
-      + intros Hk0. apply Hfront. exact Hk0. }
+      exists n, et, se, (N.to_nat pos), pp, x.
+      split; [exact Hn|]. split; [exact Hnodes|]. split; [exact Hmodels|]. split; [exact Hx|]. split; [exact Hfree|].
+      split; [exact Hpp|]. split; [eapply is_named_of_version; eauto|]. split; [exact Hse|]. split; [exact Hitem|].
+      split; [exact Hname|]. split; [exact Hmet|]. split; [exact Hlen|]. split; [exact Hns|]. split; [exact Hmd|].
+      split; [exact Hnr|]. intros Hk0. apply Hfront. exact Hk0. }
   destruct pos_opt as [pos|].
-  - unfold raw_create_named_sub_element_at in H. wstep H; try solve [winv E; exact HI]. winv E.
-    wstep H; [|exact HI]. destruct a as [s e]. destruct ((s <=? pos) && (pos <=? e)); [|winv H; exact HI].
+  - unfold raw_create_named_sub_element_at in H. wnode H n Hn.
+    wbind_ro H se Ese; [|left; left; reflexivity]. destruct se as [s e].
+    destruct ((s <=? pos) && (pos <=? e)); [|winv H; left; left; reflexivity].
     eapply Hcore; eauto. intros Hp. eapply front_false_at; eauto.
-  - unfold raw_create_named_sub_element in H. wstep H; try solve [winv E; exact HI]. winv E.
-    wstep H; [|exact HI]. destruct a as [s e].
+  - unfold raw_create_named_sub_element in H. wnode H n Hn.
+    wbind_ro H se Ese; [|left; left; reflexivity]. destruct se as [s e].
     eapply Hcore; eauto. intros Hp. eapply front_false_end; eauto.
+Qed.
+
+Lemma named_shape_inv04 w h name item m w' : TreeFacts w -> Inv04 w -> named_shape w h name item m w' -> Inv04 w'.
+Proof.
+  intros HF HI [Hl|(n & et & se & k & pp & x & Hn & Hnodes & Hmodels & Hx & Hfree & Hpp & Hnamed & Hse & Hitem & Hname & Hmet & Hk & Hns & Hmd & _ & Hfront)].
+  - eapply leaf_shape_inv04; eauto.
+  - eapply inv04_attach_named; eauto.
+Qed.
+
+Lemma raw_create_named_inv04 h name item m v pos_opt w r w' :
+  TreeFacts w -> Inv04 w -> model_of h w = Val (OK m, w) -> min_version LATEST h w = Val (OK v, w) ->
+  front T LATEST w h name pos_opt = false ->
+  match pos_opt with
+  | None => raw_create_named_sub_element T check_fn h name item m v w = Val (r, w')
+  | Some pos => raw_create_named_sub_element_at T check_fn h name item pos m v w = Val (r, w')
+  end -> Inv04 w'.
+Proof. intros HF HI Hm Hv Hfr H. eapply named_shape_inv04; eauto. eapply raw_create_named_shape; eauto. Qed.
+
+Lemma e_create_named_shape o w r w' :
+  TreeFacts w -> Inv04 w -> Known04 T LATEST w o = false ->
+  match o with
+  | OpCreateNamed h name item =>
+    e_create_named_sub_element T check_fn LATEST h name item w = Val (r, w') -> exists m, named_shape w h name item m w'
+  | OpCreateNamedAt h name item pos =>
+    e_create_named_sub_element_at T check_fn LATEST h name item pos w = Val (r, w') -> exists m, named_shape w h name item m w'
+  | OpGetOrCreateNamed h name item =>
+    e_get_or_create_named_sub_element T check_fn LATEST h name item w = Val (r, w') -> exists m, named_shape w h name item m w'
+  | _ => True
+  end.
+Proof.
+  intros HF HI HK. destruct o; try exact I; intros H.
+  - unfold e_create_named_sub_element in H. wbind_ro H m Em; [|exists 0; left; left; reflexivity].
+    wbind_ro H v Ev; [|exists 0; left; left; reflexivity].
+    exists m. eapply (raw_create_named_shape h name item m v None); eauto.
+  - unfold e_create_named_sub_element_at in H. wbind_ro H m Em; [|exists 0; left; left; reflexivity].
+    wbind_ro H v Ev; [|exists 0; left; left; reflexivity].
+    exists m. eapply (raw_create_named_shape h name item m v (Some pos)); eauto.
+  - unfold e_get_or_create_named_sub_element in H. wbind_ro H m Em; [|exists 0; left; left; reflexivity].
+    wbind_ro H v Ev; [|exists 0; left; left; reflexivity].
+    wnode H n Hn. wbind_ro H s Es; [|exists 0; left; left; reflexivity].
+    destruct s as [c|]; [winv H; exists 0; left; left; reflexivity|].
+    exists m. eapply (raw_create_named_shape h name item m v None); eauto.
 Qed.
 
 Theorem C04_create_named h name item w r w' :
